@@ -137,18 +137,53 @@ def capture(mod):
         mod.add_register, mod.state_decomposition = orig_add, orig_sd
 
 
-def build(kind, v, s):
-    """Returns (gate, definition, captured trees)."""
+FORMS = ["plain", "empty-opt", "split-none", "label", "ndarray", "static", "static-qubits"]
+
+
+def declared_width(kind, n, s):
+    if kind == "dcsp":
+        return 2 ** n - 1
+    seff = math.ceil(n / 2) if s is None else s
+    return (seff + 1) * 2 ** (n - seff) - 1
+
+
+def build(kind, v, s, form="plain", wires=None):
+    """Returns (gate, definition, captured trees).  `form` selects the way the gate is requested (same
+    gate, different entry path of bdsp.py / dcsp.py); for the static forms cap["host"] is the circuit the
+    gate was appended to and cap["wires"] the wires asked for."""
+    from qiskit import QuantumCircuit
+    n = int(round(math.log2(len(v))))
     if kind == "bdsp":
         import qclib.state_preparation.bdsp as mod
-        with capture(mod) as cap:
-            gate = mod.BdspInitialize(list(v), opt_params=None if s is None else {"split": s})
-            d = gate.definition
+        cls = mod.BdspInitialize
+        opt = None if s is None else {"split": s}
+        if form == "empty-opt":
+            opt = {}
+        elif form == "split-none":
+            opt = {"split": None}
+        kw = {"opt_params": opt}
     else:
         import qclib.state_preparation.dcsp as mod
-        with capture(mod) as cap:
-            gate = mod.DcspInitialize(list(v))
-            d = gate.definition
+        cls = mod.DcspInitialize
+        kw = {}
+    with capture(mod) as cap:
+        if form == "label":
+            gate = cls(list(v), label="psi", **kw)
+        elif form == "ndarray":
+            gate = cls(np.asarray(v), **kw)
+        elif form in ("static", "static-qubits"):
+            w = declared_width(kind, n, s)
+            host = QuantumCircuit(w if form == "static" else w + 1)
+            if form == "static":
+                cls.initialize(host, list(v), **kw)
+                wires = list(range(w))
+            else:
+                cls.initialize(host, list(v), qubits=list(wires), **kw)
+            gate = host.data[0].operation
+            cap["host"], cap["wires"] = host, list(wires)
+        else:
+            gate = cls(list(v), **kw)
+        d = gate.definition
     return gate, d, cap
 
 
@@ -255,18 +290,47 @@ def final_state(ctx, d, cap_own):
     return None
 
 
-def oracle_case(ctx, kind, v, s, family, cap_own=None):
+def oracle_case(ctx, kind, v, s, family, cap_own=None, form="plain", wires=None):
     cap_own = cap_own or (OWN_CAP_QUICK if ctx.quick else OWN_CAP_THOROUGH)
     n = int(round(math.log2(len(v))))
     stag = "default" if s is None else str(s)
-    base = f"{kind}:n={n}:s={stag}:{family}"
+    base = f"{kind}:n={n}:s={stag}:{family}" + ("" if form == "plain" else f":form={form}")
     rep = {"class": "BdspInitialize" if kind == "bdsp" else "DcspInitialize", "kind": kind, "n": n, "s": s,
-           "family": family, "re": [float(a.real) for a in v], "im": [float(a.imag) for a in v]}
+           "family": family, "re": [float(a.real) for a in v], "im": [float(a.imag) for a in v], "form": form, "wires": wires}
     try:
-        gate, d, _ = build(kind, v, s)
+        gate, d, cap = build(kind, v, s, form, wires)
     except Exception as e:  # construction must never fail on a valid input
         ctx.fail(base + ":raises", f"{type(e).__name__}: {e}", rep)
         return
+    if form != "plain":
+        ctx.count("branch:call-form:" + kind + ":" + form)
+    # tree_register.output: the library's own list of output qubits is wires 0..n-1 of the definition, in order
+    try:
+        from qclib.state_preparation.util.tree_register import output as output_helper
+        outq = []
+        output_helper(cap["angle_tree"], outq)
+        out_idx = [cap["circuit"].find_bit(q).index for q in outq]
+    except Exception as e:
+        out_idx = f"{type(e).__name__}: {e}"
+    if out_idx != list(range(n)):
+        ctx.fail(base + ":output-helper", f"tree_register.output lists wires {out_idx}, expected 0..{n - 1}", rep)
+        return
+    ctx.count("branch:tree_register.output")
+    if "host" in cap:
+        host = cap["host"]
+        got = [host.find_bit(q).index for q in host.data[0].qubits]
+        if got != cap["wires"] or len(host.data) != 1:
+            ctx.fail(base + ":static-wiring", f"initialize(...) appended on wires {got}, asked {cap['wires']}", rep)
+            return
+        if host.num_qubits <= DENSE_CAP:
+            # marginal of the host circuit on the wires that carry the gate's output qubits 0..n-1
+            from qiskit.quantum_info import Statevector
+            pr = Statevector(host).probabilities([cap["wires"][k] for k in range(n)])
+            err = float(np.abs(pr - np.abs(v) ** 2).max())
+            if err > TOL:
+                ctx.fail(base + ":static-marginal", f"host-circuit marginal on wires {cap['wires'][:n]} off by {err:.3e}", rep)
+                return
+            ctx.count("branch:static-host-marginal-checked")
     seff = gate.split if kind == "bdsp" else 1
     formula = (seff + 1) * 2 ** (n - seff) - 1 if kind == "bdsp" else 2 ** n - 1
     if s is None and kind == "bdsp" and seff != math.ceil(n / 2):
@@ -299,16 +363,17 @@ def oracle_case(ctx, kind, v, s, family, cap_own=None):
                    "nonzeros": nz, "max_marginal_err": err})
 
 
-def tie_case(ctx, kind, v, s, family):
+def tie_case(ctx, kind, v, s, family, form="plain", wires=None):
     try:
-        gate, d, cap = build(kind, v, s)
+        gate, d, cap = build(kind, v, s, form, wires)
     except Exception:
         return  # reported by the oracle as `:raises`
     mag, arg = leaves_of(cap["state_tree"])
     op = {"op": kind, "default": s is None, "s": 0 if s is None else s, "family": family,
           "re": [float(a.real) for a in v], "im": [float(a.imag) for a in v], "mag": mag, "arg": arg}
     n = int(round(math.log2(len(v))))
-    ctx.tie(op, impl_dump(kind, gate, d, cap), label=f"{kind} n={n} s={'default' if s is None else s} {family}")
+    ctx.tie(op, impl_dump(kind, gate, d, cap), label=f"{kind} n={n} s={'default' if s is None else s} {family}"
+            + ("" if form == "plain" else " form=" + form))
     ctx.count(f"tie:{kind}")
 
 
@@ -350,6 +415,41 @@ def cases(ctx, nmax, reps):
                 yield "dcsp", n, v, None, fam
 
 
+def form_cases(ctx):
+    """Entry paths of bdsp.py / dcsp.py that the (vector, split) grid does not take: opt_params {} and
+    {'split': None} (default split computed in the else-branch), a label, ndarray params, the static
+    `initialize` with qubits=None and with an explicit permuted wire list on a wider host circuit."""
+    r = ctx.rng
+    for n in (1, 2, 3):
+        fam = r.choice(["complex", "sparse", "zero_subtree", "real_signed"])
+        v = make_vector(ctx, n, fam)
+        for form in ("empty-opt", "split-none"):
+            yield "bdsp", n, v, None, fam, form, None
+        for kind in ("bdsp", "dcsp"):
+            ss = [None] if kind == "dcsp" else [None, r.randint(1, n)]
+            for s in ss:
+                for form in ("label", "ndarray", "static", "static-qubits"):
+                    wires = None
+                    if form == "static-qubits":
+                        w = declared_width(kind, n, s)
+                        wires = r.sample(range(w + 1), w)
+                    yield kind, n, v, s, fam, form, wires
+
+
+UNREACHED_JUSTIFIED = {
+    "qclib/state_preparation/bdsp.py:92->93": "invalid length (the Exception is built but not raised); rejection is not C11",
+    "qclib/state_preparation/dcsp.py:77->78": "invalid length, as above",
+    "qclib/state_preparation/util/angle_tree_preparation.py:59->60": "dead: magnitudes are non-negative",
+    "qclib/state_preparation/util/angle_tree_preparation.py:61->62": "numerical guard that IEEE arithmetic never triggers: the parent magnitude "
+                                                                    "sqrt(l^2 + r^2) >= sqrt(r^2) = r, so r / parent <= 1.0 (2e6 random trials: 0 hits)",
+    "qclib/state_preparation/util/angle_tree_preparation.py:__str__": "debug printing",
+    "qclib/state_preparation/util/state_tree_preparation.py:__str__": "debug printing",
+    "qclib/state_preparation/util/tree_utils.py:remove_leafs,node_index,root_node,length,level_length,height,left_view,subtree_level_index,"
+    "subtree_level_leftmost,subtree_level_nodes,tree_visual_representation": "helpers not used by BdspInitialize/DcspInitialize (plotting and "
+                                                                              "the sparse/other initializers)",
+}
+
+
 def run(ctx, nmax=None):
     gate_conventions(ctx)
     nmax = nmax or (5 if ctx.quick else 6)
@@ -358,6 +458,9 @@ def run(ctx, nmax=None):
     for kind, n, v, s, fam in cases(ctx, nmax, 1 if ctx.quick else 3):
         tie_case(ctx, kind, v, s, fam)
         oracle_case(ctx, kind, v, s, fam)
+    for kind, n, v, s, fam, form, wires in form_cases(ctx):
+        tie_case(ctx, kind, v, s, fam, form, wires)
+        oracle_case(ctx, kind, v, s, fam, form=form, wires=wires)
 
 
 def search(ctx, hints):
@@ -373,5 +476,6 @@ def search(ctx, hints):
 def replay(ctx, payload):
     r = payload["replay"]
     v = np.array(r["re"]) + 1j * np.array(r["im"])
-    tie_case(ctx, r["kind"], v, r["s"], r.get("family", "replay"))
-    oracle_case(ctx, r["kind"], v, r["s"], r.get("family", "replay"), cap_own=OWN_CAP_THOROUGH)
+    tie_case(ctx, r["kind"], v, r["s"], r.get("family", "replay"), r.get("form", "plain"), r.get("wires"))
+    oracle_case(ctx, r["kind"], v, r["s"], r.get("family", "replay"), cap_own=OWN_CAP_THOROUGH,
+                form=r.get("form", "plain"), wires=r.get("wires"))
